@@ -1,6 +1,8 @@
 #![allow(dead_code, clippy::all)]
 mod c02;
 mod c03;
+mod c09;
+mod c14;
 mod corpus;
 mod features;
 mod refeval;
@@ -57,6 +59,8 @@ fn main() {
     let code = match ctx.id.as_str() {
         "C02" => c02::run(&ctx),
         "C03" => c03::run(&ctx),
+        "C09" => c09::run(&ctx),
+        "C14" => c14::run(&ctx),
         _ => usage(),
     };
     std::process::exit(code);
@@ -66,6 +70,8 @@ fn replay(id: &str, v: &serde_json::Value) -> i32 {
     match id {
         "C02" => c02::replay(v),
         "C03" => c03::replay(v),
+        "C09" => c09::replay(v),
+        "C14" => c14::replay(v),
         _ => {
             eprintln!("no replay for {id}");
             3
